@@ -277,6 +277,8 @@ pub fn arb_edited_state() -> impl Strategy<Value = EditedState> {
 const FEN_ALPHABET: &[char] = &[
     'p', 'n', 'b', 'r', 'q', 'k', 'P', 'N', 'B', 'R', 'Q', 'K', '0', '1', '2', '3', '4', '5', '6', '7', '8', '9', '/', ' ', '-', '+', 'a', 'c', 'e', 'h', 'A', 'H', 'w', 'W', 'x', '\0', '\t', '\n',
     '\u{e9}', '\u{ff19}', '\u{1F600}', '\u{2009}',
+    // characters whose Unicode case mapping lands on an ASCII letter (Kelvin sign -> k, long s -> S, dotless i -> I, I with dot -> i)
+    '\u{212A}', '\u{17F}', '\u{131}', '\u{130}',
 ];
 
 #[derive(Clone, Debug)]
@@ -596,7 +598,7 @@ pub enum Expect {
 pub fn corrupt(p: &Pos, shredder: bool, c: &Corruption) -> Option<(String, Expect)> {
     let text = p.to_fen(shredder);
     let mut f: Vec<String> = text.split(' ').map(|s| s.to_string()).collect();
-    let bad_chars = ['x', 'X', '9', '-', '+', '.', 'z', 'i', '\u{e9}', '\u{ff11}', '\0', '?', 'E', 'A', 'a', 'W'];
+    let bad_chars = ['x', 'X', '9', '-', '+', '.', 'z', 'i', '\u{e9}', '\u{ff11}', '\0', '?', 'E', 'A', 'a', 'W', '\u{212A}', '\u{17F}'];
     let expect;
     match c {
         Corruption::PlacementBadChar(pos, ch) => {
